@@ -82,7 +82,7 @@ def run(ctx):
         k = x["what"].split()[0]
         kinds[k] = kinds.get(k, 0) + 1
     ctx.extra.update({"evaluations": len(recs), "distinct_nontrivial": len({x["what"] + json.dumps(x["opts"]) for x in rest}),
-                      "rule": "destination states derived from a correct copy by one of 18 mutation kinds (incl. symlinks to existing files / directories outside the destination, random chunk subsets overwritten, same-second mtime with other content) (or empty / unrelated) x the 16 option "
+                      "rule": "destination states derived from a correct copy by one of 19 mutation kinds (incl. non-zero bytes over the snapshot's zero blocks in files of the same and of another size, symlinks to existing files / directories outside the destination, random chunk subsets overwritten, same-second mtime with other content) (or empty / unrelated) x the 16 option "
                               "combinations; 10 hostile node names", "mutations": kinds, "hostile_names": [x["name"] for x in jail]})
     ctx.sample({"id": base["id"], "what": base["what"], "opts": base["opts"], "pre": base["pre"][:4], "post": base["post"][:4]})
     ctx.assumptions += ["runs as root: ownership restore is possible and mode 000 entries are readable", "special files (devices, fifos) are not generated"]
